@@ -19,7 +19,7 @@ RULE = (
     "beyond its end) and a unit time from {1,2,3,5,10,15,30,60 min, 1 day}, optionally edited by an insert_absence_time_list whose list overlaps the steps already present, written with write_simple_json; also "
     "never-simulated and FINISHED_FAILURE variants; (2) a parent model (profile W, other unit time, parent absence "
     "list, both auto-task flags) in which one task at a generated position (0-2 FS/SS predecessors, any successors) "
-    "is a BaseSubProjectTask configured from that file (remove_absence_time_list on/off). Oracle: default_work_amount "
+    "is a BaseSubProjectTask configured from that file (remove_absence_time_list on/off); one parent in three is written to JSON and read into a new project before it is related to its unit time and simulated. Oracle: default_work_amount "
     "== sub-project duration (minus its absence steps inside the run when asked), unit copied; in the observed "
     "parent run the task performs on exactly ceil(D*u_sub/u_parent) steps (exact Fraction arithmetic), the first of "
     "them the first performing step at which its start dependencies hold, consecutively apart from parent absence "
@@ -77,6 +77,7 @@ def _case(draw):
         "u_par": u_par,
         "rm_abs": draw(st.booleans()),
         "backward": backward,
+        "via_json": draw(st.integers(0, 2)) == 0,
         # the saved result may have been edited first: insert_absence_time_list(B), B overlapping the steps already present
         "insert": insert,
     }
@@ -88,7 +89,7 @@ def strategy(tier):
 
 def budget(tier):
     if tier == "quick":
-        return {"cases": 1200, "shards": 4}
+        return {"cases": 2000, "shards": 6}
     return {"cases": 60000, "shards": 16}
 
 
@@ -176,6 +177,15 @@ def check(case):
     if n_steps > 400:
         res.excluded["span_over_400_steps"] += 1
         return res
+    if case.get("via_json"):
+        # the configured parent is saved and loaded before it is related to its unit time and simulated
+        path2 = S.tmp_path("c20_parent.json")
+        pp.write_simple_json(path2)
+        p2 = S.BaseProject()
+        p2.read_simple_json(path2)
+        task = [x for x in p2.workflow.task_list if x.ID == task.ID][0]
+        hp.project = pp = p2
+        res.cls("parent_saved_and_loaded")
     task.set_work_amount_progress_of_unit_step_time(pp.unit_timedelta)
     opts = dict(parent["opts"], max_time=n_steps + 120)
     parent["opts"] = opts
